@@ -335,7 +335,7 @@ package rhp
 //@ extern (*rhp4.RPCRefreshContractRequest).ValidChallengeSignature pure
 //@ extern (*rhp4.RPCRenewContractRequest).ValidChallengeSignature pure
 //
-//@ func (*Server).handleRPCRefreshContract props C16,C08
+//@ func (*Server).handleRPCRefreshContract props C16,C08,C09
 //@   callbacks pure
 //@   requires s != nil && s.contractor != nil && s.chain != nil && s.wallet != nil && s.settings != nil && stream != nil
 //@   ghostvar fundedInputs int
@@ -351,7 +351,7 @@ package rhp
 //@      && callarg("BroadcastV2TransactionSet", 1) == callres("V2TransactionSet", 0) && callarg("BroadcastV2TransactionSet", 2) == callres("V2TransactionSet", 1)
 //@      && callarg("WriteResponse", 1).(*rhp4.RPCRefreshContractThirdResponse).Basis == callres("V2TransactionSet", 0)
 //@      && callarg("WriteResponse", 1).(*rhp4.RPCRefreshContractThirdResponse).TransactionSet == callres("V2TransactionSet", 1)
-//@ func (*Server).handleRPCRenewContract props C16,C08
+//@ func (*Server).handleRPCRenewContract props C16,C08,C09
 //@   callbacks pure
 //@   requires s != nil && s.contractor != nil && s.chain != nil && s.wallet != nil && s.settings != nil && stream != nil
 //@   ghostvar fundedInputs int
